@@ -293,14 +293,17 @@ class Compiler:
             return None
 
         indexes = []
-        names = {target.name: index for index, target in enumerate(targets)}
+        # Only the targets appearing in the SELECT targets list can be
+        # referenced. These come first and are the only ones with a name.
+        names = {target.name: index for index, target in enumerate(targets) if target.name is not None}
+        n_targets = len([target for target in targets if target.name is not None])
 
         for column in pivot_by.columns:
 
             # Process target references by index.
             if isinstance(column, int):
                 index = column - 1
-                if not 0 <= index < len(targets):
+                if not 0 <= index < n_targets:
                     raise CompilationError(f'invalid PIVOT BY column index {column}')
                 indexes.append(index)
                 continue
